@@ -1142,7 +1142,7 @@ class _LogLock(_RecLock):
         w = self.who.get(me)
         if w is not None and w[0] == self.park_idx and not self.at_acquire.is_set():
             self.at_acquire.set()
-            self.go.wait(10)
+            self.go.wait(60)
         r = _RecLock.acquire(self, *a, **k)
         if r:
             self.log.append(w)
@@ -1190,15 +1190,15 @@ def forced_schedule_case(name, cap, prefix, ops1, ops2, mode, wait=0.15):
                 res["errors"].append("thread %d: %s: %s" % (idx, type(e).__name__, e))
         t1 = threading.Thread(target=work, args=(1, ops1, pk))
         t1.start()
-        parked = (pk.inside if pk else lk.at_acquire).wait(10)
+        parked = (pk.inside if pk else lk.at_acquire).wait(60)
         if not parked:
             res["errors"].append("thread 1 never reached its parking point")
         t2 = threading.Thread(target=work, args=(2, ops2, None))
         t2.start()
         t2.join(wait)                    # done, or blocked on the lock
         (pk.release if pk else lk.go).set()
-        t1.join(10)
-        t2.join(10)
+        t1.join(60)
+        t2.join(60)
         if t1.is_alive() or t2.is_alive():
             res["errors"].append("a thread is still blocked after the release")
         res["log"] = [[w[0], list(w[1])] for w in lk.log if w is not None]
